@@ -2,7 +2,9 @@ package rangecache
 
 import (
 	"context"
+	"errors"
 	"fmt"
+	"io"
 	"sync"
 	"time"
 
@@ -162,7 +164,10 @@ func (rc *RangeCache) GetRange(ctx context.Context, start, ln int64) ([]byte, er
 			end,
 			end-start,
 		)
-		_, err := rc.remoteFetcher(v, start)
+		n, err := rc.remoteFetcher(v, start)
+		if n == len(v) && errors.Is(err, io.EOF) {
+			err = nil // a reader may report the end of the file together with the last bytes
+		}
 		if err == nil {
 			cloned := clone(v)
 			rc.setRange(ctx, start, ln, cloned)
